@@ -17,6 +17,7 @@ struct ClientInfo {
 	int sockfd = -1, tunfd = -1;
 	int userid = -1;              // learned from the wire (VACK)
 	bool raw_mode = false;        // sends raw frames
+	bool late = false;            // started later; does not gate T0
 };
 
 struct Offered {
@@ -55,6 +56,7 @@ struct World {
 	void schedule_ops();          // "ops" of the plan
 	void run();
 	J result();
+	J fate_json(const std::pair<int, uint64_t> &key, const Fate &f);
 	void add(Monitor *m) { owned.push_back(m); S.monitors.push_back(m); }
 	ClientInfo *client_of(Task *t) { for (auto &c : clients) if (c.task == t) return &c; return nullptr; }
 	Bytes make_packet(const J &op);   // deterministic packet from op fields
